@@ -508,7 +508,7 @@ class RandBundle:
         return ''.join(out)
 
 
-def gen_random(rng, n, allow_ref_resolve=True, formatters=(b'none', b'none', b'num'), prefix_limit=0.15):
+def gen_random(rng, n, allow_ref_resolve=True, formatters=(b'none', b'none', b'num', b'all'), prefix_limit=0.15):
     cases = []
     for _ in range(n):
         rb = RandBundle(rng, allow_ref_resolve=allow_ref_resolve)
@@ -659,8 +659,8 @@ def witnesses_c06():
 
 
 def witnesses_c08():
-    cs = [Case(['hello = Hello { $name }\n'], msg('hello'), [('name', v_str(b'X'))], formatter=b'all'),          # D22
-          Case(['hello = Hello\n'], msg('hello'), None, formatter=b'all'),                                     # D22, single-text shortcut
+    cs = [Case(['hello = Hello { $name }\n'], msg('hello'), [('name', v_str(b'X'))], formatter=b'all'),          # D22 (fixed): regression case
+          Case(['hello = Hello\n'], msg('hello'), None, formatter=b'all'),                                     # D22 (fixed), single-text shortcut: regression case
           Case(['hello = Hello\n'], msg('hello'), None, transform=b'upper'),                                   # shortcut must transform
           Case(['hello = Hello { $n }\n'], msg('hello'), [('n', mnum(1.5))], formatter=b'num'),
           Case(['-inner = x\n-outer = { -inner } { $arg }\nmsg = { -outer(arg: "A") }\n'], msg('msg'), [('arg', v_str(b'C'))]),
